@@ -168,3 +168,54 @@ Proof.
     + unfold walkoff_exact. rewrite (Derive_ext _ _ th E1), E1. apply (walkoff_pump_closed no ne Hno Hne).
     + unfold walkoff_exact. rewrite (Derive_ext _ _ th E2), E2. apply walkoff_constant. lra.
 Qed.
+
+(* ---- any unit beam direction d = (dx, dy, dz): s_z(theta) = -sin theta * dx + cos theta * dz *)
+Definition walkoff_uniaxial_general (no ne : R) (d : vec) (th : R) : R :=
+  let sz := - sin th * vx d + cos th * vz d in
+  let n := 1 / sqrt (y_uniaxial (inv2 no) (inv2 ne) (sz ^ 2)) in
+  atan (/ 2 * n ^ 2 * ((inv2 no - inv2 ne) * (2 * sz * (- cos th * vx d - sin th * vz d)))).
+
+Theorem walkoff_model_general no ne phi d th :
+  0 < no -> 0 < ne -> unit_vec d ->
+  (ne <= no ->
+     walkoff_exact (fun t => index_model t phi no no ne d Extraordinary) th = walkoff_uniaxial_general no ne d th /\
+     walkoff_exact (fun t => index_model t phi no no ne d Ordinary) th = 0) /\
+  (no <= ne ->
+     walkoff_exact (fun t => index_model t phi no no ne d Ordinary) th = walkoff_uniaxial_general no ne d th /\
+     walkoff_exact (fun t => index_model t phi no no ne d Extraordinary) th = 0).
+Proof.
+  intros Hno Hne Hd.
+  assert (Hu : forall t, vx (crystal_frame t phi d) * vx (crystal_frame t phi d) +
+                         vy (crystal_frame t phi d) * vy (crystal_frame t phi d) +
+                         vz (crystal_frame t phi d) * vz (crystal_frame t phi d) = 1).
+  { intros t. apply unit_vec_components, crystal_frame_unit, Hd. }
+  assert (Hdxz : vx d * vx d + vz d * vz d <= 1).
+  { pose proof (unit_vec_components d Hd). pose proof (sq_nonneg (vy d)). lra. }
+  assert (Hz : forall t, vz (crystal_frame t phi d) = sz_of (vx d) (vz d) t).
+  { intros t. rewrite crystal_frame_z. reflexivity. }
+  assert (Hdep : forall t, 1 / sqrt (y_uniaxial (inv2 no) (inv2 ne) (vz (crystal_frame t phi d) * vz (crystal_frame t phi d))) =
+                           n_of no ne (vx d) (vz d) t).
+  { intros t. unfold n_of, y_of. rewrite Hz. f_equal. f_equal. f_equal. ring. }
+  assert (Hclosed : walkoff_exact (n_of no ne (vx d) (vz d)) th = walkoff_uniaxial_general no ne d th).
+  { unfold walkoff_exact, walkoff_uniaxial_general. cbv zeta.
+    rewrite (walkoff_general no ne Hno Hne (vx d) (vz d) th Hdxz). unfold n_of, y_of, sz_of. reflexivity. }
+  split; intros Hord.
+  - assert (E1 : forall t, index_model t phi no no ne d Extraordinary = n_of no ne (vx d) (vz d) t).
+    { intros t. unfold index_model. cbv zeta.
+      destruct (uniaxial_closed_form_sz no ne _ _ _ Hno Hne (Hu t)) as [H _]. rewrite (proj2 (H Hord)). apply Hdep. }
+    assert (E2 : forall t, index_model t phi no no ne d Ordinary = no).
+    { intros t. unfold index_model. cbv zeta.
+      destruct (uniaxial_closed_form_sz no ne _ _ _ Hno Hne (Hu t)) as [H _]. apply (proj1 (H Hord)). }
+    split.
+    + unfold walkoff_exact. rewrite (Derive_ext _ _ th E1), E1. exact Hclosed.
+    + unfold walkoff_exact. rewrite (Derive_ext _ _ th E2), E2. apply walkoff_constant. lra.
+  - assert (E1 : forall t, index_model t phi no no ne d Ordinary = n_of no ne (vx d) (vz d) t).
+    { intros t. unfold index_model. cbv zeta.
+      destruct (uniaxial_closed_form_sz no ne _ _ _ Hno Hne (Hu t)) as [_ H]. rewrite (proj1 (H Hord)). apply Hdep. }
+    assert (E2 : forall t, index_model t phi no no ne d Extraordinary = no).
+    { intros t. unfold index_model. cbv zeta.
+      destruct (uniaxial_closed_form_sz no ne _ _ _ Hno Hne (Hu t)) as [_ H]. apply (proj2 (H Hord)). }
+    split.
+    + unfold walkoff_exact. rewrite (Derive_ext _ _ th E1), E1. exact Hclosed.
+    + unfold walkoff_exact. rewrite (Derive_ext _ _ th E2), E2. apply walkoff_constant. lra.
+Qed.
